@@ -21,11 +21,13 @@ PATHS = ['/', '/a', '/a/', '/a//', '/a/1', '/a/b', '/a/b/', '/a/x/c', '/b', '/b/
 REQ_METHODS = ['GET', 'GET', 'HEAD', 'POST', 'PUT', 'get', 'FOO', 'DELETE', 'post']
 METHOD_SETS = [None, None, ['GET'], ['POST'], ['get', 'put'], ['POST', 'DELETE'], ['HEAD'], [], ['GET', 'POST']]
 BEHAVIOURS = ['ok', 'ok', 'ok', 'ctx', 'nonresp', 'none', 'raise404nb', 'ret403nb', 'raise409', 'ret503',
-              'raise500nb', 'boom', 'weird', 'reroute', 'ret404nb', 'ret503_rendered', 'ret403nb_rendered']
+              'raise500nb', 'boom', 'weird', 'reroute', 'ret404nb', 'ret503_rendered', 'ret403nb_rendered', 'boombraces', 'raise400braces']
 OUT = {'ok': ['resp', 'ok'], 'ctx': ['resp', 'ok'], 'nonresp': 'nonresp', 'none': 'nonresp',
        'raise404nb': ['http', 404, False], 'ret404nb': ['http', 404, False], 'ret403nb': ['http', 403, False],
        'raise409': ['http', 409, True], 'ret503': ['http', 503, True], 'raise500nb': ['http', 500, False],
        'boom': ['raise', 'ValueError'], 'weird': ['raise', 'RuntimeError'], 'reroute': 'reroute',
+       # messages that are format-string syntax: '{0}', '{name!r}', a lone '}' (dict reprs, JSON snippets, templates)
+       'boombraces': ['raise', 'KeyError'], 'raise400braces': ['http', 400, True],
        # an HTTPException RETURNED by the endpoint of a route that has a render function: its own status, not a rendering of it
        'ret503_rendered': ['http', 503, True], 'ret403nb_rendered': ['http', 403, False]}
 HANDLERS = {'default': ('default', 'adapt'), 'reraise': ('reraise', 'adapt'), 'contextual': ('default', 'adapt'),
@@ -115,6 +117,14 @@ def build(case):
                     raise KeyError('no repr')
             def f():
                 raise RuntimeError(u'é中' * 3000, Unprintable() if k % 2 else 'x')
+            return f, None
+        if beh == 'boombraces':
+            def f():
+                raise KeyError({'user': 'x', 'fmt': '{0} {name!r} }{'})
+            return f, None
+        if beh == 'raise400braces':
+            def f():
+                raise E.BadRequest('expected {"name": ...} or {0}, got }{ and {missing[key]}')
             return f, None
         if beh == 'reroute':
             return RerouteWSGI(mk_target(k)), None
